@@ -30,14 +30,22 @@ def run(ctx):
                 "negative, positive) and optionally calls qb_ipcs_connection_auth_set(uid, gid, mode) with the peer's or "
                 "another owner and one of 10 modes containing 0600; 30% of the clients get one injected failure "
                 "(ENOSPC/EACCES/EPERM/EIO/ENOMEM) on the k-th file-system call of their connection (set-up, clean-up "
-                "and tear-down calls; outside the four proposed finding classes); accepted clients send 0-3 requests. "
+                "and tear-down calls; outside the four proposed finding classes); accepted clients send 0-3 requests; "
+                "30% of the clients are RAW peers (not libqb's client: plain AF_UNIX socket without SO_PASSCRED of its "
+                "own, the 24-byte handshake written by hand in 1-3 fragments before the server's accept(), inside the "
+                "accept()->per-connection-setsockopt window (forced through the interposed accept), or right after that "
+                "setsockopt); 25% of the clients have a hostile second process with the same ids that plants a 0666/0644 "
+                "file or a symlink to a root-owned victim file outside the directory under one of the predictable "
+                "ring/control file names right after the k-th call of the connection (k = 3: directory just handed to "
+                "the peer, 4, or any set-up call). "
                 "A case is non-trivial if it has a refused client, an accepted+connected client, an auth_set with "
                 "another owner or mode, an injected failure that fired, a client whose real and effective ids differ, "
-                "a failure on creating a ring header file, another owner on the socket transport, or a concurrent "
-                "group; distinct by SHA1 of its op lines")
+                "a failure on creating a ring header file, another owner on the socket transport, a raw peer, a "
+                "planted object (accepted by the kernel or not), or a concurrent group; distinct by SHA1 of its op lines")
     ctx.trusted = ["Lean 4.33 kernel; axioms propext, Classical.choice, Quot.sound",
                    "harness/ipc/ipc_adm.c (libc interposition of mkdtemp/mkdir/open/openat/chmod/fchmod/chown/fchown/"
-                   "lchown/ftruncate/posix_fallocate/unlink/unlinkat/rmdir/rename inside the harness executable, "
+                   "lchown/ftruncate/posix_fallocate/unlink/unlinkat/rmdir/rename/accept/setsockopt inside the harness "
+                   "executable, raw-peer and planter child processes, "
                    "lstat snapshots, canonical names) and harness/ipc/hl_loop.h",
                    "tools/admgen.py (generator, oracle, comparison: exact up to the end of the set-up / refusal path, "
                    "calls+paths and final residue for the tear-down, where the client process also acts on the files)",
@@ -47,7 +55,9 @@ def run(ctx):
                        "unless a failure is injected)",
                        "mmap, sem_init, socket calls and calloc succeed (not failure-injected); abstract sockets "
                        "(no FORCESOCKETSFILE)",
-                       "modes chosen by the accept callback contain 0600 in generated cases (D27 class replayed separately)"]
+                       "modes chosen by the accept callback contain 0600 in generated cases (D27 class replayed separately)",
+                       "the hostile peer only ADDS objects (open O_CREAT|O_EXCL / symlink) at one moment of the set-up; it "
+                       "does not unlink or replace files the server has already created in the peer-owned directory"]
     if os.geteuid() != 0:
         ctx.warnings.append("not running as root: clients cannot take generated ids")
     vlib.lean_prepare(ctx)
